@@ -1,4 +1,4 @@
-//@serves C05 C09 C10 C11 C14
+//@serves C04 C05 C09 C10 C11 C14
 //@tier A
 //@include prelude/head.rs
 verus! {
@@ -32,6 +32,7 @@ impl<Fd: AsFd + Sized> HotfixRustixFd for Fd {
 //@prove syscalls.fstatfs
 //@prove syscalls.fstatat
 //@prove syscalls.statx
+//@prove syscalls.openat2 u05
 }
 } // verus!
 fn main() {}
